@@ -267,6 +267,11 @@ fn main() {
         // threads: lex all inputs sequentially, then concurrently on N threads in shuffled order,
         // report any case whose dump differs
         "threads" => {
+            // the lexer's debug-only loop detector prints to stdout: worker threads must be able to take the
+            // stdout lock, so this thread gives it up while they run (it used to keep it and a detector
+            // firing in a worker blocked the run for good)
+            w.flush().unwrap();
+            drop(w);
             let n: usize = args.get(2).map_or(16, |s| s.parse().unwrap());
             let srcs: Vec<String> = stdin
                 .lock()
@@ -302,10 +307,13 @@ fn main() {
             }
             total_bad.sort_unstable();
             total_bad.dedup();
-            writeln!(w, "THREADS n={n} cases={} mismatches={}", srcs.len(), total_bad.len()).unwrap();
+            let mut w = std::io::BufWriter::new(std::io::stdout().lock());
+            writeln!(w, "\nTHREADS n={n} cases={} mismatches={}", srcs.len(), total_bad.len()).unwrap();
             for i in total_bad {
                 writeln!(w, "MISMATCH {i} {}", hex(srcs[i].as_bytes())).unwrap();
             }
+            w.flush().unwrap();
+            return;
         }
         // tables: enum numbering, keyword maps (by execution), unicode predicate tables
         "tables" => {
